@@ -59,34 +59,38 @@ def main():
                    obligations=['core_ranking.get_combinations_from_columns/ensures'])
         if mr3 and args_e.combination_number_upper_bound != min(cap, 10 ** 4):
             h.fail('get_combinations_from_columns.ensures.mr3_cap', wit, args_e.combination_number_upper_bound)
-        # --- rank graph rows
+        # --- rank graph rows: three consecutive batches (the visit counter of the fair sampler carries over between batches)
         CR.GLOBAL_PRIOR_COMB_COUNTS.clear()
         nrows = 30
-        df = pd.DataFrame({c: rng.integers(0, 3, nrows).astype(str) for c in cols})
-        summary = CR.mixed_rank_graph(df, args, InlinePool(), Pbar())
-        rows = summary.triplet_scores
-        h.record(('graph', case), True)
-        if any(a not in cols or b not in cols for a, b, _ in rows):
-            h.fail('mixed_rank_graph.ensures.names_in_space', wit, rows[:6])
-        pairs = [(a, b) for a, b, _ in rows]
-        unordered = {frozenset(p) for p in pairs}
-        n_eval = min(cap if not mr3 else min(cap, 10 ** 4), len(combos))
-        if heuristic == 'Constant':
-            if any(s != 0.0 for _, _, s in rows) or len(rows) != n_eval:
-                h.fail('mixed_rank_graph.ensures.constant_once', wit, rows[:6])
-        else:
-            score = {}
-            for a, b, s in rows:
-                score.setdefault((a, b), []).append(s)
-            for (a, b), ss in score.items():
-                if (b, a) not in score or sorted(score[(b, a)]) != sorted(ss):
-                    h.fail('mixed_rank_graph.ensures.both_orientations', wit, f'pair {(a, b)} scores {ss} mirror {score.get((b, a))}')
-            if len(rows) != 2 * n_eval:
-                h.fail('mixed_rank_graph.ensures.both_orientations', wit, f'{len(rows)} rows for {n_eval} evaluated pairs')
+        unordered = set()
+        for batch in range(3):
+            df = pd.DataFrame({c: rng.integers(0, 3, nrows).astype(str) for c in cols})
+            summary = CR.mixed_rank_graph(df, args, InlinePool(), Pbar())
+            rows = summary.triplet_scores
+            h.record(('graph', case, batch), True)
+            bwit = dict(wit, batch=batch + 1)
+            if any(a not in cols or b not in cols for a, b, _ in rows):
+                h.fail('mixed_rank_graph.ensures.names_in_space', bwit, rows[:6])
+            pairs = [(a, b) for a, b, _ in rows]
+            unordered_b = {frozenset(p) for p in pairs}
+            unordered |= unordered_b
+            n_eval = min(cap if not mr3 else min(cap, 10 ** 4), len(combos))
+            if heuristic == 'Constant':
+                if any(s != 0.0 for _, _, s in rows) or len(rows) != n_eval:
+                    h.fail('mixed_rank_graph.ensures.constant_once', bwit, rows[:6])
+            else:
+                score = {}
+                for a, b, s in rows:
+                    score.setdefault((a, b), []).append(s)
+                for (a, b), ss in score.items():
+                    if (b, a) not in score or sorted(score[(b, a)]) != sorted(ss):
+                        h.fail('mixed_rank_graph.ensures.both_orientations', bwit, f'pair {(a, b)} scores {ss} mirror {score.get((b, a))}')
+                if len(rows) != 2 * n_eval:
+                    h.fail('mixed_rank_graph.reduced_only_by_cap', bwit, f'{len(rows)} rows for {n_eval} pairs that fit under the cap')
+            if cap >= len(combos) and unordered_b != exp:
+                h.fail('mixed_rank_graph.reduced_only_by_cap', bwit, sorted(map(sorted, exp - unordered_b)))
         if not unordered <= exp:
             h.fail('mixed_rank_graph.evaluated_subset_of_requested', wit, sorted(map(sorted, unordered - exp)))
-        if cap >= len(combos) and unordered != exp:
-            h.fail('mixed_rank_graph.reduced_only_by_cap', wit, sorted(map(sorted, exp - unordered)))
     h.bounded_note('exact pair sets / mirroring / cap on the real get_combinations_from_columns and mixed_rank_graph '
                    '(in-process pool), names with spaces, dashes, " AND ", unicode; label anywhere',
                    f'{n_cases} random configurations, 1..7 columns', h.evaluations)
